@@ -80,6 +80,8 @@ impl Bits {
         let mut stream = if trace.cfg.obj == 1 { Ps2Decoder::default() } else { Ps2Decoder::new() };
         let mut aligned = true;
         let mut kb = KbAny::new(2, DynLayout::Direct(2), hc(true));
+        // and a long-lived Keyboard on the same wire, bit by bit (the route an interrupt handler uses)
+        let mut kb_stream = KbAny::new(if trace.cfg.seed2 & 1 == 0 { 2 } else { 1 }, DynLayout::Direct(2), hc(true));
         let mut violation: Option<Violation> = None;
         let mut any_fault = false;
         let mut last_t = 0u64;
@@ -102,9 +104,10 @@ impl Bits {
                     let _ = busy.clear();
                     busy_bits = 0;
                     kb.clear();
+                    kb_stream.clear();
                     let _ = stream.clear();
                     aligned = true;
-                    env.cov.api_calls += 3;
+                    env.cov.api_calls += 4;
                     if i > 0 {
                         env.cov.fault("clear_with_nothing_pending");
                         env.cov.probe("watchdog_clear_after_fault");
@@ -144,17 +147,43 @@ impl Bits {
             let was_aligned = aligned;
             let mut r_stream: Option<FRes> = None;
             let mut stream_early = false;
+            let mut rk_stream: Option<Res> = None;
+            let mut kb_early: Option<(usize, Res)> = None;
             for (j, b) in bits.iter().enumerate() {
                 let x = FRes::of_bit(&stream.add_bit(*b));
-                env.cov.api_calls += 1;
+                let y = Res::of(&kb_stream.add_bit(*b));
+                env.cov.api_calls += 2;
                 if was_aligned && bits.len() == 11 {
                     if j < 10 {
                         if x != FRes::Pending {
                             stream_early = true;
                         }
+                        if y != Res::Pending && kb_early.is_none() {
+                            kb_early = Some((j, y));
+                        }
                     } else {
                         r_stream = Some(x);
+                        rk_stream = Some(y);
                     }
+                }
+            }
+            if let Some(y) = rk_stream {
+                // the frame rule through Keyboard::add_bit, receiver at a frame boundary: a rejected
+                // frame is reported with exactly its framing error on the 11th bit, an accepted one
+                // never with a framing error, and nothing is reported before the 11th bit
+                let want = frame_verdict(&bits);
+                let framing_err = |r: &Res| matches!(r, Res::Err(e) if *e != pc_keyboard::Error::UnknownKeyCode);
+                env.cov.evaluations += 1;
+                env.cov.probe("frame_checked_via_keyboard_add_bit");
+                if let Some((j, e)) = kb_early {
+                    fail!('ops, i, "keyboard-add_bit-verdict", "Keyboard::add_bit, receiver at a frame boundary: bit {} of the frame {:03X} already returned {}", j, bits_word(&bits), e.show());
+                }
+                let ok = match want {
+                    FRes::Err(e) => y == Res::Err(e),
+                    _ => !framing_err(&y),
+                };
+                if !ok {
+                    fail!('ops, i, "keyboard-add_bit-verdict", "Keyboard::add_bit, receiver at a frame boundary (start of run or clear()): the frame {:03X} returned {} on its 11th bit, the PS/2 frame rule says {}", bits_word(&bits), y.show(), want.show());
                 }
             }
             if bits.len() != 11 {
@@ -341,6 +370,11 @@ impl Bits {
         let mut h = LogHash::new();
         let mut real = if trace.cfg.obj == 1 { Ps2Decoder::default() } else { Ps2Decoder::new() };
         let mut model = RefFramer::new(); // used as a bit collector / counter only
+        // the same statement one level up: a Keyboard fed bit by bit against a Keyboard handed the
+        // same 11 bits as whole words (both routes end in the same scancode decoder type)
+        let kset = if trace.cfg.seed2 & 1 == 0 { 2 } else { 1 };
+        let mut kb_bits = KbAny::new(kset, DynLayout::object(0), pc_keyboard::HandleControl::Ignore);
+        let mut kb_words = KbAny::new(kset, DynLayout::object(0), pc_keyboard::HandleControl::Ignore);
         let mut aligned = true;
         let mut any_fault = false;
         let mut faults_seen = false;
@@ -378,8 +412,10 @@ impl Bits {
                         env.cov.probe("watchdog_clear_after_fault");
                     }
                     let _ = real.clear();
+                    kb_bits.clear();
+                    kb_words.clear();
                     model.clear();
-                    env.cov.api_calls += 1;
+                    env.cov.api_calls += 3;
                     aligned = true;
                     cleared_since_fault = true;
                     prev_class = None;
@@ -453,10 +489,44 @@ impl Bits {
                     }
                 }
                 let snapshot: Vec<bool> = if pending_before == 10 { model.bits.clone() } else { Vec::new() };
+                let model_bits_before: Vec<bool> = snapshot.clone();
                 let r = FRes::of_bit(&real.add_bit(bit));
+                let rk = Res::of(&kb_bits.add_bit(bit));
                 let _ = model.add_bit(bit);
-                env.cov.api_calls += 1;
-                env.cov.evaluations += 1;
+                env.cov.api_calls += 2;
+                env.cov.evaluations += 2;
+                if pending_before < 10 {
+                    if rk != Res::Pending {
+                        fail!(
+                            'ops,
+                            i,
+                            "keyboard-bit-route-equals-word-route",
+                            "Keyboard::add_bit({}) with {} bits pending since the last frame boundary or clear() returned {} instead of Ok(None)",
+                            bit as u8,
+                            pending_before,
+                            rk.show()
+                        );
+                    }
+                } else {
+                    let mut eleven = model_bits_before.clone();
+                    eleven.push(bit);
+                    let w = bits_word(&eleven);
+                    let rw = Res::of(&kb_words.add_word(w));
+                    env.cov.api_calls += 1;
+                    env.cov.probe("keyboard_bit_route_vs_word_route");
+                    if rk != rw {
+                        fail!(
+                            'ops,
+                            i,
+                            "keyboard-bit-route-equals-word-route",
+                            "Keyboard (Set {}): the 11th add_bit of frame {:03X} returned {}, Keyboard::add_word of the same 11 bits (same frames so far, as words) returns {}",
+                            kset,
+                            w,
+                            rk.show(),
+                            rw.show()
+                        );
+                    }
+                }
                 h.mix(((st as u64) << 1 | bit as u64) ^ (r.hash() << 16));
                 env.cov.hit("partial_state_x_bit", st * 2 + bit as usize);
                 if pending_before < 10 {
@@ -629,11 +699,13 @@ impl Scenario for Bits {
         cov.probe_declare("watchdog_clear_after_fault");
         if self.prop == WProp::C05 {
             cov.probe_declare("frame_checked_in_stream");
+            cov.probe_declare("frame_checked_via_keyboard_add_bit");
         }
         if self.prop == WProp::C06 {
             cov.probe_declare("clear_with_10_bits_pending");
             cov.probe_declare("recovered_after_watchdog_clear");
             cov.probe_declare("add_word_on_busy_decoder");
+            cov.probe_declare("keyboard_bit_route_vs_word_route");
         } else {
             cov.probe_declare("single_flip_rejected");
             cov.probe_declare("double_flip_accepted_with_changed_byte");
